@@ -107,7 +107,9 @@ func VerifH08b() {
 	var q interface{}
 	var err error
 	if rangeQ {
-		q, err = e.NewRangeQuery(store, nil, c.q, sym.TimeMs(t0), sym.TimeMs(t0+60000), sym.DurMs(15000))
+		// a range window of 4 steps, or a single-point range (end == start)
+		span := int64(60000) * int64(sym.Choice("rangeSpan", 2))
+		q, err = e.NewRangeQuery(store, nil, c.q, sym.TimeMs(t0), sym.TimeMs(t0+span), sym.DurMs(15000))
 	} else {
 		q, err = e.NewInstantQuery(store, nil, c.q, sym.TimeMs(t0))
 	}
@@ -130,6 +132,13 @@ func VerifH08b() {
 				sym.Assert("C08/counter:"+c.q, incFalse == 1 && incTrue == 0 && sym.Counter("fallback-queries") == 0)
 			} else {
 				sym.Assert("C08/counter:"+c.q, incTrue == 1 && incFalse == 0 && sym.Counter("fallback-queries") == 1)
+				// answered as the reference answers it: a range query is handed to the
+				// reference engine as a range query (Matrix result), an instant query as an instant query
+				if rangeQ {
+					sym.Assert("C08/fallback-entry-point:"+c.q, sym.Counter("fallback:NewRangeQuery") == 1 && sym.Counter("fallback:NewInstantQuery") == 0)
+				} else {
+					sym.Assert("C08/fallback-entry-point:"+c.q, sym.Counter("fallback:NewInstantQuery") == 1 && sym.Counter("fallback:NewRangeQuery") == 0)
+				}
 			}
 		}
 	} else {
